@@ -1,5 +1,495 @@
-/- C08 — property theorems (to be written). -/
-import SoundeventModel.Basic
+/-
+  C08 — Detection evaluation accounts for every sound event and only credits overlaps.
+  Property theorems only (helper lemmas: Proofs/Lemmas/Detection.lean, Proofs/Lemmas/Metrics.lean).
+
+  The matcher (`match_geometries`, C07) is a parameter; `MatcherCover n m ms` is its contract on
+  `n` source and `m` target geometries: every source and every target position occurs exactly
+  once, no entry is empty, affinities lie in [0, 1], are 0 on one-sided entries and positive on
+  pairs (C07's `cover` and `positive_pairs`, after the repair of `match_geometries`).  The harness
+  evaluates `matcherCoverB` (proved equivalent below) on every answer of the real matcher.
+-/
+import SoundeventModel.Detection
+import Proofs.Lemmas.Detection
+import Proofs.C07
 namespace SE.Proofs.C08
+open SE SE.Metrics SE.Detection
+
+/-! ### which clips are evaluated -/
+
+/-- the evaluated clips are the predictions whose clip id is annotated, in the order of the
+    predictions -/
+theorem C08_clips {α β} (preds : List (Nat × α)) (anns : List (Nat × β)) :
+    (Detection.pairClips preds anns).map (·.1) = (preds.map (·.1)).filter (fun k => (anns.map (·.1)).contains k) := by
+  show (Metrics.pairClips preds anns).map (·.1) = _
+  unfold Metrics.pairClips
+  induction preds with
+  | nil => rfl
+  | cons p ps ih =>
+    simp only [List.filterMap_cons, List.map_cons, List.filter_cons]
+    have hs := lookupLast_isSome p.1 anns
+    cases hl : lookupLast p.1 anns with
+    | none =>
+      rw [hl] at hs
+      simp only [Option.isSome_none] at hs
+      simp only [Option.map_none, ← hs, Bool.false_eq_true, if_false]
+      exact ih
+    | some a =>
+      rw [hl] at hs
+      simp only [Option.isSome_some] at hs
+      simp only [Option.map_some, ← hs, if_true, List.map_cons, List.cons.injEq, true_and]
+      exact ih
+
+/-- each evaluated pair consists of a prediction of the input and an annotation of the input
+    that carry the same clip id; with pairwise distinct annotated ids it is *the* annotation -/
+theorem C08_clips_pairs {α β} (preds : List (Nat × α)) (anns : List (Nat × β))
+    (x : Nat × β × α) (hx : x ∈ Detection.pairClips preds anns) :
+    (x.1, x.2.2) ∈ preds ∧ (x.1, x.2.1) ∈ anns := by
+  change x ∈ Metrics.pairClips preds anns at hx
+  unfold Metrics.pairClips at hx
+  rw [List.mem_filterMap] at hx
+  obtain ⟨p, hp, hx⟩ := hx
+  cases hl : lookupLast p.1 anns with
+  | none => simp [hl] at hx
+  | some a =>
+    simp only [hl, Option.map_some, Option.some.injEq] at hx
+    subst hx
+    exact ⟨hp, lookupLast_some_mem _ _ _ hl⟩
+
+/-! ### every sound event in exactly one match -/
+
+/-- under the matcher's cover contract on the filtered lists `evaluate_clip` does not fail, and
+    every predicted and every annotated sound event of the clip — with or without geometry —
+    occurs in exactly one match (`ClipEvaluation`'s validator accepts) -/
+theorem C08_cover (C : Nat) (preds : List SEPred) (anns : List SEAnn) (ms : List MEntry)
+    (hc : MatcherCover (preds.filter (·.hasGeom)).length (anns.filter (·.hasGeom)).length ms) :
+    ∃ es, evalClip C preds anns ms = some es ∧
+      (es.filterMap (·.src)).Perm (List.range preds.length) ∧
+      (es.filterMap (·.tgt)).Perm (List.range anns.length) ∧
+      ∀ e ∈ es, e.src.isSome ∨ e.tgt.isSome := by
+  have hp : (geomIdx (preds.map (·.hasGeom))).length = (preds.filter (·.hasGeom)).length := by
+    rw [← geomIdx_map_getD preds (·.hasGeom), List.length_map]
+  have ha : (geomIdx (anns.map (·.hasGeom))).length = (anns.filter (·.hasGeom)).length := by
+    rw [← geomIdx_map_getD anns (·.hasGeom), List.length_map]
+  rw [← hp, ← ha] at hc
+  refine ⟨clipEntries C preds anns ms, evalClip_of_cover C preds anns ms hc,
+    clipEntries_src_perm C preds anns ms hc, clipEntries_tgt_perm C preds anns ms hc, ?_⟩
+  intro e he
+  rcases mem_clipEntries.mp he with ⟨m, _, hm⟩ | ⟨i, _, rfl⟩ | ⟨j, _, rfl⟩
+  · unfold stepTotal stepEntries at hm
+    cases hs : m.src <;> cases ht : m.tgt <;> simp only [hs, ht, Option.map_none, Option.map_some] at hm
+    · simp at hm
+    · simp only [List.mem_singleton] at hm; subst hm; simp [unmatchedAnn]
+    · simp only [List.mem_singleton] at hm; subst hm; simp [unmatchedPred]
+    · simp only [List.mem_singleton] at hm; subst hm; simp [matchedPair]
+  · simp [unmatchedPred]
+  · simp [unmatchedAnn]
+
+/-! ### the index map -/
+
+/-- the filtered → original index map is the order-preserving injection onto the sound events
+    that have a geometry: it is strictly increasing, hits only events with a geometry, and the
+    event at the k-th mapped position is the k-th event handed to the matcher -/
+theorem C08_index_faithful (preds : List SEPred) :
+    (geomIdx (preds.map (·.hasGeom))).Pairwise (· < ·) ∧
+    (∀ i ∈ geomIdx (preds.map (·.hasGeom)), i < preds.length ∧ (preds.getD i default).hasGeom = true) ∧
+    (geomIdx (preds.map (·.hasGeom))).map (fun i => preds.getD i default) = preds.filter (·.hasGeom) := by
+  refine ⟨geomIdx_sorted _, ?_, geomIdx_map_getD preds (·.hasGeom)⟩
+  intro i hi
+  rw [mem_geomIdx, List.length_map] at hi
+  refine ⟨hi.1, ?_⟩
+  have := hi.2
+  simpa [List.getD_eq_getElem?_getD, hi.1] using this
+
+/-- the same for the annotations -/
+theorem C08_index_faithful_annotations (anns : List SEAnn) :
+    (geomIdx (anns.map (·.hasGeom))).Pairwise (· < ·) ∧
+    (∀ i ∈ geomIdx (anns.map (·.hasGeom)), i < anns.length ∧ (anns.getD i default).hasGeom = true) ∧
+    (geomIdx (anns.map (·.hasGeom))).map (fun i => anns.getD i default) = anns.filter (·.hasGeom) := by
+  refine ⟨geomIdx_sorted _, ?_, geomIdx_map_getD anns (·.hasGeom)⟩
+  intro i hi
+  rw [mem_geomIdx, List.length_map] at hi
+  refine ⟨hi.1, ?_⟩
+  have := hi.2
+  simpa [List.getD_eq_getElem?_getD, hi.1] using this
+
+/-! ### what a match reports -/
+
+/-- a paired match names the two sound events whose geometries the matcher paired (index
+    faithfulness) — which it does only when they overlap (affinity > 0, the matcher's contract);
+    it reports that affinity, and as score and sole metric the probability the prediction
+    gives to the annotation's class -/
+theorem C08_pairs_overlap_report_affinity_score (C : Nat) (preds : List SEPred) (anns : List SEAnn)
+    (ms : List MEntry) (es : List Entry)
+    (hc : MatcherCover (preds.filter (·.hasGeom)).length (anns.filter (·.hasGeom)).length ms)
+    (h : evalClip C preds anns ms = some es) (e : Entry) (he : e ∈ es) (hp : e.paired = true) :
+    ∃ m ∈ ms, ∃ k l i j, m.src = some k ∧ m.tgt = some l ∧
+      (geomIdx (preds.map (·.hasGeom)))[k]? = some i ∧ (geomIdx (anns.map (·.hasGeom)))[l]? = some j ∧
+      e.src = some i ∧ e.tgt = some j ∧
+      e.aff = m.aff ∧ 0 < e.aff ∧
+      e.score = tcp ⟨classEnc (anns.getD j default).tags, predEnc C (preds.getD i default).tags⟩ ∧
+      e.item = ⟨classEnc (anns.getD j default).tags, predEnc C (preds.getD i default).tags⟩ := by
+  have hpl : (geomIdx (preds.map (·.hasGeom))).length = (preds.filter (·.hasGeom)).length := by
+    rw [← geomIdx_map_getD preds (·.hasGeom), List.length_map]
+  have hal : (geomIdx (anns.map (·.hasGeom))).length = (anns.filter (·.hasGeom)).length := by
+    rw [← geomIdx_map_getD anns (·.hasGeom), List.length_map]
+  rw [← hpl, ← hal] at hc
+  rw [evalClip_of_cover C preds anns ms hc] at h
+  cases h
+  rcases mem_clipEntries.mp he with ⟨m, hm, hem⟩ | ⟨i, _, rfl⟩ | ⟨j, _, rfl⟩
+  · obtain ⟨k, l, hs, ht, rfl⟩ := stepTotal_paired hem hp
+    have ha : 0 < m.aff := (hc.2.2 m hm).2.2.2.2 ⟨by simp [hs], by simp [ht]⟩
+    have hk := cover_src_lt hc hm hs
+    have hl := cover_tgt_lt hc hm ht
+    refine ⟨m, hm, k, l, (geomIdx (preds.map (·.hasGeom))).getD k 0, (geomIdx (anns.map (·.hasGeom))).getD l 0,
+      hs, ht, ?_, ?_, ?_, ?_, ?_, ?_, ?_, ?_⟩
+    · simp [List.getD_eq_getElem?_getD, hk]
+    · simp [List.getD_eq_getElem?_getD, hl]
+    · simp only [matchedPair]
+    · simp only [matchedPair]
+    · simp only [matchedPair]
+    · simpa only [matchedPair] using ha
+    · simp only [matchedPair, annClass, predRow]
+    · simp only [matchedPair, annClass, predRow]
+  · simp [Entry.paired, unmatchedPred] at hp
+  · simp [Entry.paired, unmatchedAnn] at hp
+
+/-- an unpaired sound event gets affinity 0 and score 0 -/
+theorem C08_unpaired_zero (C : Nat) (preds : List SEPred) (anns : List SEAnn) (ms : List MEntry) (es : List Entry)
+    (hc : MatcherCover (preds.filter (·.hasGeom)).length (anns.filter (·.hasGeom)).length ms)
+    (h : evalClip C preds anns ms = some es) (e : Entry) (he : e ∈ es) (hp : e.paired = false) :
+    e.aff = 0 ∧ e.score = 0 := by
+  have hpl : (geomIdx (preds.map (·.hasGeom))).length = (preds.filter (·.hasGeom)).length := by
+    rw [← geomIdx_map_getD preds (·.hasGeom), List.length_map]
+  have hal : (geomIdx (anns.map (·.hasGeom))).length = (anns.filter (·.hasGeom)).length := by
+    rw [← geomIdx_map_getD anns (·.hasGeom), List.length_map]
+  rw [← hpl, ← hal] at hc
+  rw [evalClip_of_cover C preds anns ms hc] at h
+  cases h
+  rcases mem_clipEntries.mp he with ⟨m, hm, hem⟩ | ⟨i, _, rfl⟩ | ⟨j, _, rfl⟩
+  · have := hc.2.2 m hm
+    exact stepTotal_unpaired hem hp this.2.2.2.1
+  · exact ⟨rfl, rfl⟩
+  · exact ⟨rfl, rfl⟩
+
+/-- a sound event without geometry is never paired -/
+theorem C08_geometryless_unpaired (C : Nat) (preds : List SEPred) (anns : List SEAnn) (ms : List MEntry)
+    (es : List Entry)
+    (hc : MatcherCover (preds.filter (·.hasGeom)).length (anns.filter (·.hasGeom)).length ms)
+    (h : evalClip C preds anns ms = some es) (e : Entry) (he : e ∈ es) (hp : e.paired = true) :
+    (∀ i, e.src = some i → (preds.getD i default).hasGeom = true) ∧
+    (∀ j, e.tgt = some j → (anns.getD j default).hasGeom = true) := by
+  obtain ⟨m, _, k, l, i, j, _, _, hi, hj, hsrc, htgt, _⟩ :=
+    C08_pairs_overlap_report_affinity_score C preds anns ms es hc h e he hp
+  constructor
+  · intro i' hi'
+    rw [hsrc] at hi'; cases hi'
+    exact ((C08_index_faithful preds).2.1 i (List.mem_of_getElem? hi)).2
+  · intro j' hj'
+    rw [htgt] at hj'; cases hj'
+    exact ((C08_index_faithful_annotations anns).2.1 j (List.mem_of_getElem? hj)).2
+
+
+/-! ### the run-time form of the matcher's contract -/
+
+theorem perm_range_of_counts (l : List Nat) (n : Nat)
+    (h1 : ∀ i, i < n → l.count i = 1) (h2 : ∀ i ∈ l, i < n) : l.Perm (List.range n) := by
+  rw [List.perm_iff_count]
+  intro a
+  by_cases ha : a < n
+  · rw [h1 a ha, List.Nodup.count List.nodup_range]; simp [ha]
+  · have : a ∉ l := fun hm => ha (h2 a hm)
+    rw [List.count_eq_zero_of_not_mem this, List.count_eq_zero_of_not_mem (by simpa using ha)]
+
+/-- what the harness evaluates on the real matcher's answer implies the hypothesis of the theorems -/
+theorem C08_matcher_contract_checked (n m : Nat) (ms : List MEntry) (h : matcherCoverB n m ms = true) :
+    MatcherCover n m ms := by
+  unfold matcherCoverB at h
+  simp only [Bool.and_eq_true, List.all_eq_true, List.mem_range, beq_iff_eq, decide_eq_true_eq] at h
+  obtain ⟨⟨⟨⟨h1, h2⟩, h3⟩, h4⟩, h5⟩ := h
+  refine ⟨perm_range_of_counts _ n h1 h2, perm_range_of_counts _ m h3 h4, ?_⟩
+  intro e he
+  have := h5 e he
+  simp only [Bool.or_eq_true, beq_iff_eq] at this
+  obtain ⟨⟨⟨ha, hb⟩, hc⟩, hd⟩ := this
+  refine ⟨ha, hb, hc, ?_, ?_⟩
+  · intro hnone
+    by_cases hboth : e.src.isSome = true ∧ e.tgt.isSome = true
+    · rcases hnone with h | h
+      · simp [Option.isNone_iff_eq_none.mp h] at hboth
+      · simp [Option.isNone_iff_eq_none.mp h] at hboth
+    · rw [if_neg hboth] at hd; simpa using hd
+  · intro hboth
+    rw [if_pos hboth] at hd; simpa using hd
+
+
+/-- the matcher's contract is what C07 proves of `match_geometries`' own logic: for a valid
+    answer of the assignment solver on an `n × m` affinity matrix with entries in [0, 1] (C06),
+    the matches it yields satisfy `MatcherCover` -/
+theorem C08_contract_from_C07 (n m : Nat) (aff : SE.Matching.Mat) (assigned : List (Nat × Nat))
+    (out : List SE.Matching.Entry) (h : SE.Proofs.C07.ValidAssignment n m assigned)
+    (hout : SE.Matching.selectMatches n m aff assigned = .ok out)
+    (haff : ∀ i j, i < n → j < m → 0 ≤ aff i j ∧ aff i j ≤ 1) :
+    MatcherCover n m (out.map (fun e => (⟨e.src, e.tgt, e.aff⟩ : MEntry))) := by
+  obtain ⟨hs, ht, hne⟩ := SE.Proofs.C07.C07_cover n m aff assigned out h hout
+  have hpos := SE.Proofs.C07.C07_positive_pairs n m aff assigned out h hout
+  have hrep := SE.Proofs.C07.C07_reported_affinity n m aff assigned out h hout
+  have hzero := SE.Proofs.C07.C07_unpaired_zero n m aff assigned out h hout
+  refine ⟨?_, ?_, ?_⟩
+  · simpa [SE.Matching.srcs, List.filterMap_map, Function.comp_def] using hs
+  · simpa [SE.Matching.tgts, List.filterMap_map, Function.comp_def] using ht
+  · intro e' he'
+    obtain ⟨e, he, rfl⟩ := List.mem_map.mp he'
+    simp only
+    have hone : (e.src = none ∨ e.tgt = none) → e.aff = 0 := hzero e he
+    have hboth : ∀ i j, e.src = some i → e.tgt = some j → 0 < e.aff ∧ e.aff ≤ 1 := by
+      intro i j hi hj
+      have hi' : i < n := by
+        have : i ∈ SE.Matching.srcs out := List.mem_filterMap.mpr ⟨e, he, hi⟩
+        simpa using hs.mem_iff.mp this
+      have hj' : j < m := by
+        have : j ∈ SE.Matching.tgts out := List.mem_filterMap.mpr ⟨e, he, hj⟩
+        simpa using ht.mem_iff.mp this
+      rw [hrep e he i j hi hj]
+      exact ⟨(hpos e he i j hi hj).1, (haff i j hi' hj').2⟩
+    refine ⟨?_, ?_, ?_, ?_, ?_⟩
+    · rcases hne e he with h1 | h1
+      · exact Or.inl (Option.isSome_iff_ne_none.mpr h1)
+      · exact Or.inr (Option.isSome_iff_ne_none.mpr h1)
+    · cases hs' : e.src with
+      | none => rw [hone (Or.inl hs')]
+      | some i =>
+        cases ht' : e.tgt with
+        | none => rw [hone (Or.inr ht')]
+        | some j => exact le_of_lt (hboth i j hs' ht').1
+    · cases hs' : e.src with
+      | none => rw [hone (Or.inl hs')]; norm_num
+      | some i =>
+        cases ht' : e.tgt with
+        | none => rw [hone (Or.inr ht')]; norm_num
+        | some j => exact (hboth i j hs' ht').2
+    · rintro (h1 | h1)
+      · exact hone (Or.inl (Option.isNone_iff_eq_none.mp h1))
+      · exact hone (Or.inr (Option.isNone_iff_eq_none.mp h1))
+    · rintro ⟨h1, h2⟩
+      obtain ⟨i, hi⟩ := Option.isSome_iff_exists.mp h1
+      obtain ⟨j, hj⟩ := Option.isSome_iff_exists.mp h2
+      exact (hboth i j hi hj).1
+
+
+/-! ### the executable cover statement used as monitor -/
+
+theorem exactlyOnceB_iff (n : Nat) (l : List Nat) : exactlyOnceB n l = true ↔ l.Perm (List.range n) := by
+  unfold exactlyOnceB
+  simp only [Bool.and_eq_true, List.all_eq_true, List.mem_range, beq_iff_eq, decide_eq_true_eq]
+  constructor
+  · rintro ⟨h1, h2⟩; exact perm_range_of_counts l n h1 h2
+  · intro hp
+    constructor
+    · intro i hi
+      rw [hp.count_eq, List.Nodup.count List.nodup_range]; simp [hi]
+    · intro i hi
+      simpa using hp.mem_iff.mp hi
+
+/-- the monitor the harness evaluates on the matches `sound_event_detection` really returned
+    means exactly the cover statement of `C08_cover` … -/
+theorem C08_holds_cover_sound (nP nA : Nat) (ms : List (Option Nat × Option Nat)) :
+    holdsCoverB nP nA ms = true ↔
+      ((ms.filterMap (·.1)).Perm (List.range nP) ∧ (ms.filterMap (·.2)).Perm (List.range nA) ∧
+       ∀ m ∈ ms, m.1.isSome ∨ m.2.isSome) := by
+  unfold holdsCoverB
+  simp only [Bool.and_eq_true, exactlyOnceB_iff, List.all_eq_true, Bool.or_eq_true, and_assoc]
+
+/-- … and the model satisfies it whenever the matcher keeps its contract -/
+theorem C08_holds_cover_model (C : Nat) (preds : List SEPred) (anns : List SEAnn) (ms : List MEntry)
+    (hc : MatcherCover (preds.filter (·.hasGeom)).length (anns.filter (·.hasGeom)).length ms) :
+    ∃ es, evalClip C preds anns ms = some es ∧
+      holdsCoverB preds.length anns.length (es.map (fun e => (e.src, e.tgt))) = true := by
+  obtain ⟨es, h, h1, h2, h3⟩ := C08_cover C preds anns ms hc
+  refine ⟨es, h, ?_⟩
+  rw [C08_holds_cover_sound]
+  refine ⟨?_, ?_, ?_⟩
+  · simpa [List.filterMap_map, Function.comp_def] using h1
+  · simpa [List.filterMap_map, Function.comp_def] using h2
+  · intro m hm
+    obtain ⟨e, he, rfl⟩ := List.mem_map.mp hm
+    exact h3 e he
+
+example : holdsCoverB 2 1 [(some 1, some 0), (some 0, none)] = true := by decide
+example : holdsCoverB 2 1 [(some 1, some 0)] = false := by decide
+example : holdsCoverB 1 1 [(some 0, some 0), (none, some 0)] = false := by decide
+
+
+/-! ### scores are means -/
+
+theorem C08_clip_score_is_mean (es : List Entry) :
+    clipScore es = if es = [] then 0 else mean (es.map (·.score)) := by
+  unfold clipScore meanOrZero
+  cases es <;> simp
+
+/-- the match `evaluate_clip` builds from an entry -/
+def detMatchOut (e : Entry) : MatchOut :=
+  { src := e.src, tgt := e.tgt, affinity := e.aff, score := some e.score,
+    metrics := if e.paired then [("True Class Probability", tcp e.item)] else [] }
+
+theorem entryOut_eq (e : Entry) : entryOut e = .ok (detMatchOut e) := by
+  unfold entryOut detMatchOut
+  cases hp : e.paired <;>
+    simp [features, taskMetrics, itemMetricSL, Metric.label, List.mapM_cons, List.mapM_nil, bind,
+      Except.bind, pure, Except.pure]
+
+/-- the clip evaluation of one evaluated clip -/
+def detClipOut (C : Nat) (x : Nat × List SEAnn × PredClip) : ClipOut :=
+  let es := clipEntries C x.2.2.events x.2.1 x.2.2.matcher
+  { clip := x.1, metrics := [], score := some (clipScore es), mts := es.map detMatchOut }
+
+def clipCovered (x : Nat × List SEAnn × PredClip) : Prop :=
+  MatcherCover (x.2.2.events.filter (·.hasGeom)).length (x.2.1.filter (·.hasGeom)).length x.2.2.matcher
+
+theorem detClip_eq (C : Nat) (x : Nat × List SEAnn × PredClip) (hc : clipCovered x) :
+    detClip C x = .ok (detClipOut C x, (clipEntries C x.2.2.events x.2.1 x.2.2.matcher).map (·.item)) := by
+  unfold detClip
+  have hpl : (geomIdx (x.2.2.events.map (·.hasGeom))).length = (x.2.2.events.filter (·.hasGeom)).length := by
+    rw [← geomIdx_map_getD x.2.2.events (·.hasGeom), List.length_map]
+  have hal : (geomIdx (x.2.1.map (·.hasGeom))).length = (x.2.1.filter (·.hasGeom)).length := by
+    rw [← geomIdx_map_getD x.2.1 (·.hasGeom), List.length_map]
+  unfold clipCovered at hc
+  rw [← hpl, ← hal] at hc
+  rw [evalClip_of_cover C _ _ _ hc]
+  simp only
+  rw [mapM_total entryOut detMatchOut entryOut_eq]
+  rfl
+
+/-- `sound_event_detection` under the matcher's contract on every evaluated clip: the clip
+    evaluations are those of the evaluated pairs, in order; each clip score is the mean of its
+    match scores (0 without matches); the overall score is the mean of the clip scores (0 without
+    clips); the run-level metrics are computed over the items of all matches — none when no
+    sound event was evaluated -/
+theorem C08_means (C : Nat) (preds : List (Nat × PredClip)) (anns : List (Nat × List SEAnn)) (out : EvalOut)
+    (hc : ∀ x ∈ Detection.pairClips preds anns, clipCovered x)
+    (h : soundEventDetection C preds anns = .ok out) :
+    let pairs := Detection.pairClips preds anns
+    let entries := fun (x : Nat × List SEAnn × PredClip) => clipEntries C x.2.2.events x.2.1 x.2.2.matcher
+    let items := (pairs.map (fun x => (entries x).map (·.item))).flatten
+    out.clips = pairs.map (detClipOut C) ∧
+    (∀ c ∈ out.clips, ∃ x ∈ pairs, c.clip = x.1 ∧ c.score = some (clipScore (entries x)) ∧
+        c.mts.map (·.score) = (entries x).map (fun e => some e.score)) ∧
+    out.score = meanOrZero (pairs.map (fun x => clipScore (entries x))) ∧
+    (items = [] → out.metrics = []) ∧
+    (items ≠ [] → ∃ v, meanAveragePrecision C items = some v ∧
+      out.metrics = [("Mean Average Precision", v), ("Balanced Accuracy", balancedAccuracy C items),
+                     ("Accuracy", accuracy C items), ("Top 3 Accuracy", topK 3 C items)]) := by
+  intro pairs entries items
+  unfold soundEventDetection at h
+  have hrs : (Detection.pairClips preds anns).mapM (detClip C) =
+      .ok (pairs.map (fun x => (detClipOut C x, (entries x).map (·.item)))) := by
+    have : ∀ l : List (Nat × List SEAnn × PredClip), (∀ x ∈ l, clipCovered x) →
+        l.mapM (detClip C) = .ok (l.map (fun x => (detClipOut C x, (entries x).map (·.item)))) := by
+      intro l hl
+      induction l with
+      | nil => simp [List.mapM_nil, pure, Except.pure]
+      | cons a l ih =>
+        simp [List.mapM_cons, detClip_eq C a (hl a (by simp)), ih (fun x hx => hl x (by simp [hx])), bind,
+          Except.bind, pure, Except.pure, entries]
+    exact this _ hc
+  simp only [hrs, bind, Except.bind] at h
+  have hitems : (List.map (fun x => x.2) (pairs.map (fun x => (detClipOut C x, (entries x).map (·.item))))).flatten
+      = items := by simp [items, List.map_map, Function.comp_def]
+  have hclips : List.map (fun x => x.1) (pairs.map (fun x => (detClipOut C x, (entries x).map (·.item))))
+      = pairs.map (detClipOut C) := by simp [List.map_map, Function.comp_def]
+  rw [hitems, hclips] at h
+  have hscore : (pairs.map (detClipOut C)).filterMap (·.score) = pairs.map (fun x => clipScore (entries x)) := by
+    simp [List.filterMap_map, detClipOut, Function.comp_def, entries]
+  have hcl : ∀ c ∈ pairs.map (detClipOut C), ∃ x ∈ pairs, c.clip = x.1 ∧ c.score = some (clipScore (entries x)) ∧
+        c.mts.map (·.score) = (entries x).map (fun e => some e.score) := by
+    intro c hcm
+    obtain ⟨x, hx, rfl⟩ := List.mem_map.mp hcm
+    exact ⟨x, hx, rfl, rfl, by simp [detClipOut, detMatchOut, entries, List.map_map, Function.comp_def]⟩
+  by_cases he : items.isEmpty = true
+  · simp only [he, if_true, pure, Except.pure, Except.ok.injEq] at h
+    subst h
+    refine ⟨rfl, hcl, by simp only [hscore], fun _ => rfl, fun hne => ?_⟩
+    exact absurd (List.isEmpty_iff.mp he) hne
+  · simp only [he, Bool.false_eq_true, if_false] at h
+    cases hm : meanAveragePrecision C items with
+    | none =>
+      simp [features, taskMetrics, runMetricSL, hm, List.mapM_cons, bind, Except.bind] at h
+    | some v =>
+      have hfs : features (taskMetrics .soundEventDetection .run) (runMetricSL C items) =
+          .ok [("Mean Average Precision", v), ("Balanced Accuracy", balancedAccuracy C items),
+               ("Accuracy", accuracy C items), ("Top 3 Accuracy", topK 3 C items)] := by
+        simp [features, taskMetrics, runMetricSL, hm, Metric.label, List.mapM_cons, List.mapM_nil, bind, Except.bind,
+          pure, Except.pure]
+      simp only [hfs, pure, Except.pure, Except.ok.injEq] at h
+      subst h
+      refine ⟨rfl, hcl, by simp only [hscore], fun hi => ?_, fun _ => ⟨v, rfl, rfl⟩⟩
+      simp [hi] at he
+
+
+/-! ### scores stay in [0, 1] -/
+
+/-- with single-label scoring (the encoded scores of every predicted sound event are
+    non-negative and sum to at most 1) every match score, hence every clip score, lies in
+    [0, 1]: constructing the `Match` and `ClipEvaluation` objects cannot fail on the score -/
+theorem C08_scores_in_range (C : Nat) (preds : List SEPred) (anns : List SEAnn) (ms : List MEntry)
+    (hrow : ∀ i, (∀ x ∈ predRow C preds i, 0 ≤ x) ∧ (predRow C preds i).sum ≤ 1) :
+    (∀ e ∈ clipEntries C preds anns ms, 0 ≤ e.score ∧ e.score ≤ 1) ∧
+    0 ≤ clipScore (clipEntries C preds anns ms) ∧ clipScore (clipEntries C preds anns ms) ≤ 1 := by
+  have hall : ∀ e ∈ clipEntries C preds anns ms, 0 ≤ e.score ∧ e.score ≤ 1 := by
+    intro e he
+    have hz : (0 : Rat) ≤ 0 ∧ (0 : Rat) ≤ 1 := ⟨le_refl _, by norm_num⟩
+    rcases mem_clipEntries.mp he with ⟨m, _, hm⟩ | ⟨i, _, rfl⟩ | ⟨j, _, rfl⟩
+    · unfold stepTotal stepEntries at hm
+      cases hs : m.src <;> cases ht : m.tgt <;> simp only [hs, ht, Option.map_none, Option.map_some] at hm
+      · simp at hm
+      · simp only [List.mem_singleton] at hm; subst hm; exact hz
+      · simp only [List.mem_singleton] at hm; subst hm; exact hz
+      · simp only [List.mem_singleton] at hm; subst hm
+        simp only [matchedPair]
+        exact tcp_range _ (hrow _).1 (hrow _).2
+    · exact hz
+    · exact hz
+  refine ⟨hall, ?_⟩
+  unfold clipScore meanOrZero
+  split
+  · exact ⟨le_refl _, by norm_num⟩
+  · apply mean_range
+    intro v hv
+    obtain ⟨e, he, rfl⟩ := List.mem_map.mp hv
+    exact hall e he
+
+/-- nothing to evaluate: no clip evaluations, score 0, no metrics (and no failure) -/
+theorem C08_empty (C : Nat) (anns : List (Nat × List SEAnn)) :
+    soundEventDetection C [] anns = .ok { metrics := [], score := 0, clips := [] } := by
+  simp [soundEventDetection, Detection.pairClips, Metrics.pairClips, meanOrZero, List.mapM_nil, bind, Except.bind,
+    pure, Except.pure]
+
+/-! ### non-vacuity -/
+
+-- a matcher answer that satisfies the contract: pair (0,0) with affinity 1/3, source 1 and target 1 left over
+example : matcherCoverB 2 2 [⟨some 0, some 0, 1/3⟩, ⟨some 1, none, 0⟩, ⟨none, some 1, 0⟩] = true := by decide +kernel
+-- and answers that do not: a target twice, an index out of range, a positive affinity on a one-sided entry
+example : matcherCoverB 2 1 [⟨some 0, some 0, 1/3⟩, ⟨some 1, some 0, 1/2⟩] = false := by decide +kernel
+example : matcherCoverB 1 1 [⟨some 1, some 0, 1/3⟩] = false := by decide +kernel
+example : matcherCoverB 1 0 [⟨some 0, none, 1/2⟩] = false := by decide +kernel
+-- the filtered → original map skips the geometry-less events
+example : geomIdx [false, true, false, true] = [1, 3] ∧ noGeomIdx [false, true, false, true] = [0, 2] := by decide
+-- a clip with a geometry-less prediction first: the matcher's source 0 is prediction 1; non-overlapping
+-- events come from the matcher as one-sided entries; the geometry-less prediction is appended unmatched
+example :
+    (evalClip 2 [⟨0, false, [(some 0, 1/2)]⟩, ⟨1, true, [(some 1, 3/4)]⟩] [⟨2, true, [some 1]⟩, ⟨3, true, [some 0]⟩]
+      [⟨some 0, none, 0⟩, ⟨none, some 1, 0⟩, ⟨none, some 0, 0⟩]).map (fun es => es.map (fun e => (e.src, e.tgt, e.aff, e.score)))
+    = some [(some 1, none, 0, 0), (none, some 1, 0, 0), (none, some 0, 0, 0), (some 0, none, 0, 0)] := by
+  decide +kernel
+-- a two-sided entry with affinity 0 violates the contract (the matcher no longer produces it)
+example : matcherCoverB 1 1 [⟨some 0, some 0, 0⟩] = false := by decide +kernel
+example :
+    (evalClip 2 [⟨0, false, [(some 0, 1/2)]⟩, ⟨1, true, [(some 1, 3/4)]⟩] [⟨2, true, [some 1]⟩]
+      [⟨some 0, some 0, 1/3⟩]).map (fun es => es.map (fun e => (e.src, e.tgt, e.aff, e.score)))
+    = some [(some 1, some 0, 1/3, 3/4), (some 0, none, 0, 0)] := by
+  decide +kernel
+-- the matcher naming a position that does not exist is an error, not a silent default
+example : evalClip 2 [⟨0, false, []⟩] [] [⟨some 0, none, 0⟩] = none := by decide +kernel
+example : Detection.pairClips [(3, "p3"), (1, "p1"), (7, "p7")] [(1, "a1"), (3, "a3"), (5, "a5")]
+    = [(3, "a3", "p3"), (1, "a1", "p1")] := by decide
 
 end SE.Proofs.C08
